@@ -1,7 +1,17 @@
 import props
 
+
+
+def runs(tier, seed, replay):
+    if replay:
+        return props.replay_run(replay)
+    base = props.simple("c04", 300, 4000)(tier, seed, None)
+    # CLI glue (the binary's subcommands against the library; see bin/propcfg/C02.py)
+    return base + [{"args": ["cli", "--seed", str(seed), "--tier", tier, "--count", "1500" if tier == "thorough" else "150"]}]
+
+
 CONFIG = {
-    "runs": props.simple("c04", 300, 4000),
+    "runs": runs,
     "status": "proved (full, model level): C04_card_of_each_feature: for every WFQ circuit and every Clean scratch state (arbitrary "
               "left-over partial derivatives) the table of card_of_each_feature (reverse-mode sweep annotate_partial_derivatives + "
               "rc - pd[leaf -f]) is exactly [(f, MCA C n [f]) | f = 1..n] in order and the state stays Clean; "
